@@ -1220,29 +1220,20 @@ pub mod implementations {
             bail!("store_skip can only store a single item");
         }
 
-        let arg = ctx.get_last_op_item().unwrap();
+        // an operand that is a list element or a field arrives as a reference to its cell
+        let arg = ctx.pop().unwrap().move_out_of_heap_primitive()?;
 
         let Primitive::Bool(val) = arg else {
             bail!("store_skip can only operate on bool (found {arg})");
         };
 
-        if predicate == 1 {
-            // skip if true
-            if *val {
-                ctx.signal(InstructionExitState::Goto(lines_to_jump));
-                return Ok(());
-            }
-        } else {
-            // skip if false
-            if !val {
-                ctx.signal(InstructionExitState::Goto(lines_to_jump));
-                return Ok(());
-            }
+        // skip if true / skip if false: the operand stays on the stack as the result
+        if (predicate == 1) == val {
+            ctx.push(arg);
+            ctx.signal(InstructionExitState::Goto(lines_to_jump));
+            return Ok(());
         }
 
-        let arg = ctx.pop().unwrap();
-
-        let arg = arg.move_out_of_heap_primitive()?;
         ctx.register_variable_local(name.clone(), arg)?;
 
         Ok(())
@@ -1392,7 +1383,7 @@ pub mod implementations {
             bail!("assert can only operate on a single item");
         }
 
-        let item = ctx.pop().unwrap();
+        let item = ctx.pop().unwrap().move_out_of_heap_primitive()?;
 
         let result = item.equals(&bool!(true))?;
 
@@ -1443,7 +1434,8 @@ pub mod implementations {
             bail!("if statements require at least one entry in the local stack")
         }
 
-        let item = ctx.pop().unwrap();
+        // a condition that is a list element or a field arrives as a reference to its cell
+        let item = ctx.pop().unwrap().move_out_of_heap_primitive()?;
         ctx.clear_stack();
 
         let Primitive::Bool(b) = item else {
@@ -1469,7 +1461,7 @@ pub mod implementations {
             bail!("while statements require at least one entry in the local stack")
         }
 
-        let item = ctx.pop().unwrap();
+        let item = ctx.pop().unwrap().move_out_of_heap_primitive()?;
         ctx.clear_stack();
 
         let Primitive::Bool(b) = item else {
